@@ -7,6 +7,8 @@
 //!   phase C  blinding-factor arithmetic against an own mod-n reference (split / order / add-sub / zero)
 //!   phase D  libtx::build::transaction / reward::output / Block::from_reward -> validate, kernel.verify
 //!   phase E  aggsig sign_from_key_id / verify round trips, Keychain::sign
+//!   phase F  the public BIP32 derivation route equals the private one
+//!   phase G  several parties: build::partial_transaction per party, kernel signed jointly (partial signatures)
 //!
 //! Every random choice is a function of (--seed, phase, case index); see `case_prng`.
 
@@ -2129,6 +2131,257 @@ fn phase_e(ctx: &Ctx) {
 	}
 }
 
+// ------------------------------------------------------------------ phase G: several signers, one kernel
+
+/// The builder route wallets actually take (`build::transaction` is the single-signer convenience): every party adds
+/// its inputs / outputs to the same transaction through `build::partial_transaction` with its own keychain, keeps its
+/// blinding sum as its share of the kernel excess (the first party moves a part of its share into the offset), and the
+/// kernel is signed jointly: `aggsig::calculate_partial_sig` per party over the summed public nonce and the summed public
+/// excess, `verify_partial_sig` on each share, `add_signatures`. Valid by construction, so: every share verifies under its
+/// own public key (and not under another party's), the sum of the shares is a completed signature under the summed key,
+/// the kernel verifies, the transaction validates, and the order in which the shares are added does not matter.
+fn multiparty_case(ctx: &Ctx, idx: usize) {
+	let run = ctx.run;
+	let mut p = case_prng(run.seed, 0x60, idx as u64);
+	let n_parties = 2 + (idx % 3 == 2) as usize;
+	let legacy_party = if idx % 4 == 3 { Some(p.usize_below(n_parties)) } else { None };
+	let first_seed = p.usize_below(ctx.kcs.len());
+	let mut used = HashSet::new();
+	let plan = gen_tx_plan(&mut p, &mut used, legacy_party.is_some());
+	// element -> party; at least two parties contribute something
+	let n_elems = plan.ins.len() + plan.outs.len();
+	if n_elems < 2 {
+		run.count("G.skipped.single_element_plan", 1);
+		return;
+	}
+	let mut owner: Vec<usize> = (0..n_elems).map(|_| p.usize_below(n_parties)).collect();
+	owner[0] = 0;
+	owner[n_elems - 1] = 1;
+	if n_parties == 3 && n_elems >= 3 {
+		owner[1] = 2;
+	}
+	let offset_u = match p.below(4) {
+		0 => U_ZERO,
+		_ => gen_scalar(&mut p),
+	};
+	let nonces_u: Vec<U256> = (0..n_parties).map(|_| gen_scalar(&mut p)).collect();
+	let replay = json!({"phase": "multiparty", "index": idx, "parties": n_parties, "first_seed": ctx.seed_json(first_seed),
+		"legacy_party": legacy_party, "tx": plan.json(), "owner_of_element": owner, "offset": hex(&u_to_be(&offset_u)),
+		"nonces": nonces_u.iter().map(|x| hex(&u_to_be(x))).collect::<Vec<_>>()});
+	let shape = format!(
+		"G;parties={};{};legacy_party={};offset={}",
+		n_parties,
+		plan.shape(),
+		legacy_party.is_some(),
+		if offset_u == U_ZERO { "zero" } else { "nonzero" }
+	);
+	let fail = |clause: &str, what: String| {
+		run.violation(&format!("check=multiparty;clause={}", clause), &what, replay.clone());
+	};
+
+	let secp_owner = &ctx.kcs[first_seed];
+	let secp = secp_owner.secp();
+	let mut tx = Transaction::empty();
+	let mut shares: Vec<BlindingFactor> = vec![];
+	let mut contributing = 0;
+	for party in 0..n_parties {
+		let kc = &ctx.kcs[(first_seed + party) % ctx.kcs.len()];
+		let kind = if legacy_party == Some(party) { BKind::Legacy } else { BKind::New };
+		let builder = AnyBuilder::new(kind, kc);
+		let mut elems: Vec<Box<build::Append<ExtKeychain, AnyBuilder>>> = vec![];
+		for (k, (v, path, cb)) in plan.ins.iter().enumerate() {
+			if owner[k] == party {
+				elems.push(if *cb { build::coinbase_input(*v, path.id()) } else { build::input(*v, path.id()) });
+			}
+		}
+		for (k, (v, path)) in plan.outs.iter().enumerate() {
+			if owner[plan.ins.len() + k] == party {
+				elems.push(build::output(*v, path.id()));
+			}
+		}
+		if elems.is_empty() {
+			continue;
+		}
+		contributing += 1;
+		p.shuffle(&mut elems);
+		match build::partial_transaction(tx.clone(), &elems, kc, &builder) {
+			Ok((t, bf)) => {
+				tx = t;
+				shares.push(bf);
+			}
+			Err(e) => {
+				// a party whose own keys cancel out has no excess share (documented zero handling of blind_sum)
+				if err_kind(&e).contains("InvalidSecretKey") {
+					run.count("G.skipped.zero_share", 1);
+				} else {
+					fail("partial_transaction", format!("party {}: {:?}", party, e));
+				}
+				return;
+			}
+		}
+	}
+	if contributing < 2 {
+		run.count("G.skipped.one_contributing_party", 1);
+		return;
+	}
+	// the first party moves `offset` out of its share
+	let offset = bf_of(&offset_u);
+	if offset_u != U_ZERO {
+		match shares[0].split(&offset, secp) {
+			Ok(rest) => shares[0] = rest,
+			Err(_) => {
+				run.count("G.skipped.zero_share", 1);
+				return;
+			}
+		}
+	}
+	let mut sks = vec![];
+	let mut pks = vec![];
+	let mut excesses = vec![];
+	for sh in &shares {
+		let sk = match sh.secret_key(secp) {
+			Ok(k) => k,
+			Err(_) => {
+				run.count("G.skipped.zero_share", 1);
+				return;
+			}
+		};
+		match (PublicKey::from_secret_key(secp, &sk), secp.commit(0, sk.clone())) {
+			(Ok(pk), Ok(c)) => {
+				pks.push(pk);
+				excesses.push(c);
+			}
+			_ => return,
+		}
+		sks.push(sk);
+	}
+	let mut nonces = vec![];
+	let mut pub_nonces = vec![];
+	for u in nonces_u.iter().take(sks.len()) {
+		let k = match SecretKey::from_slice(secp, &u_to_be(u)) {
+			Ok(k) => k,
+			Err(_) => return,
+		};
+		match PublicKey::from_secret_key(secp, &k) {
+			Ok(pk) => pub_nonces.push(pk),
+			Err(_) => return,
+		}
+		nonces.push(k);
+	}
+	let (pubkey_sum, nonce_sum) = match (
+		PublicKey::from_combination(secp, pks.iter().collect()),
+		PublicKey::from_combination(secp, pub_nonces.iter().collect()),
+	) {
+		(Ok(a), Ok(b)) => (a, b),
+		_ => {
+			run.count("G.skipped.keys_or_nonces_cancel", 1);
+			return;
+		}
+	};
+	run.eval(&shape, true);
+	let mut kernel = grin_core::core::TxKernel::with_features(plan.features());
+	let msg = match kernel.msg_to_sign() {
+		Ok(m) => m,
+		Err(e) => {
+			fail("msg_to_sign", format!("{:?}", e));
+			return;
+		}
+	};
+	let mut parts = vec![];
+	for i in 0..sks.len() {
+		match aggsig::calculate_partial_sig(secp, &sks[i], &nonces[i], &nonce_sum, Some(&pubkey_sum), &msg) {
+			Ok(sig) => parts.push(sig),
+			Err(e) => {
+				fail("calculate_partial_sig", format!("party {}: {:?}", i, e));
+				return;
+			}
+		}
+	}
+	for i in 0..parts.len() {
+		match aggsig::verify_partial_sig(secp, &parts[i], &nonce_sum, &pks[i], Some(&pubkey_sum), &msg) {
+			Ok(()) => run.count("G.partial_sig_verified", 1),
+			Err(e) => fail("verify_partial_sig", format!("share of party {} does not verify under its own key: {:?}", i, e)),
+		}
+		let j = (i + 1) % parts.len();
+		if aggsig::verify_partial_sig(secp, &parts[i], &nonce_sum, &pks[j], Some(&pubkey_sum), &msg).is_err() {
+			run.count("G.sanity.share_refused_under_another_key", 1);
+		} else {
+			run.count("G.sanity.share_accepted_under_another_key", 1);
+		}
+	}
+	let fin = match aggsig::add_signatures(secp, parts.iter().collect(), &nonce_sum) {
+		Ok(s) => s,
+		Err(e) => {
+			fail("add_signatures", format!("{:?}", e));
+			return;
+		}
+	};
+	{
+		let mut rev: Vec<&grin_util::secp::Signature> = parts.iter().collect();
+		rev.reverse();
+		match aggsig::add_signatures(secp, rev, &nonce_sum) {
+			Ok(s2) if s2 == fin => run.count("G.add_signatures_order_independent", 1),
+			other => fail("add_signatures_order", format!("shares added in reverse order give another result: {:?}", other.is_ok())),
+		}
+	}
+	match aggsig::verify_completed_sig(secp, &fin, &pubkey_sum, Some(&pubkey_sum), &msg) {
+		Ok(()) => run.count("G.completed_sig_verified", 1),
+		Err(e) => fail("verify_completed_sig", format!("sum of {} verified shares is not a signature under the summed key: {:?}", parts.len(), e)),
+	}
+	let excess = match secp.commit_sum(excesses.clone(), vec![]) {
+		Ok(c) => c,
+		Err(e) => {
+			fail("excess_commit_sum", format!("{:?}", e));
+			return;
+		}
+	};
+	match excess.to_pubkey(secp) {
+		Ok(pk) if pk == pubkey_sum => {}
+		_ => fail("excess_is_summed_key", "sum of the parties' excess commitments is not the summed public key".into()),
+	}
+	kernel.excess = excess;
+	kernel.excess_sig = fin;
+	match kernel.verify() {
+		Ok(()) => run.count("G.kernel_verified", 1),
+		Err(e) => fail("kernel_verify", format!("jointly signed kernel does not verify: {:?}", e)),
+	}
+	let mut tx = tx.replace_kernel(kernel);
+	tx.offset = offset;
+	match tx.validate(Weighting::AsTransaction) {
+		Ok(()) => run.count("G.tx_validated", 1),
+		Err(e) => fail("tx_validate", format!("jointly built transaction does not validate: {:?}", e)),
+	}
+	if tx.fee() != plan.fee || tx.outputs().len() != plan.outs.len() || tx.inputs().len() != plan.ins.len() {
+		fail("tx_shape", format!("fee {} / {} outputs / {} inputs", tx.fee(), tx.outputs().len(), tx.inputs().len()));
+	}
+	run.count(&format!("G.cases.parties_{}", parts.len()), 1);
+	if idx % 37 == 5 {
+		ctx.sample("multiparty", 1, replay.clone());
+	}
+}
+
+fn phase_g(ctx: &Ctx) {
+	let n = (ctx.budget.d_cases / 2).max(24);
+	let deadline = Instant::now() + Duration::from_secs(ctx.budget.d_secs);
+	let work = |i: usize| {
+		if let Err(rep) = monitor::catch(|| multiparty_case(ctx, i)) {
+			ctx.panic_violation("multiparty", "partial_transaction_aggsig", &rep, json!({"phase": "multiparty", "index": i}));
+		}
+	};
+	let done = match ctx.only_idx("multiparty") {
+		Some(i) => {
+			init_thread(false);
+			work(i);
+			1
+		}
+		None => par_for(n, ctx.threads, deadline, work),
+	};
+	ctx.run.count("G.cases_done", done as u64);
+	if done < n && ctx.only.is_none() {
+		ctx.run.inconclusive(&format!("phase G time cap: {} of {} cases", done, n));
+	}
+}
+
 // ------------------------------------------------------------------ phase F: the two derivation routes agree
 
 /// BIP32 has two routes to the public key of a non-hardened child: derive the private child and take its public key, or
@@ -2218,6 +2471,11 @@ fn requirements(ctx: &Ctx) {
 	let c = |n: &str| run.counter(n);
 	run.require("F: public derivation route equals the private one", c("F.public_route_equals_private_route"), (b.e_cases as u64 / 2).max(60) / 2);
 	run.require("F: hardened child refused on the public route", c("F.hardened_child_refused_on_the_public_route"), 5);
+	let g = (b.d_cases as u64 / 2).max(24);
+	run.require("G: jointly signed kernels verified", c("G.kernel_verified"), g / 3);
+	run.require("G: jointly built transactions validated", c("G.tx_validated"), g / 3);
+	run.require("G: shares refused under another party's key (oracle not vacuous)", c("G.sanity.share_refused_under_another_key"), g / 3);
+	run.require("G: shares accepted under another party's key must be 0", if c("G.sanity.share_accepted_under_another_key") == 0 { 1 } else { 0 }, 1);
 	// A
 	let a_planned = (b.a_seeds as u64) * c("A.paths") * 12;
 	run.require("A: (seed,path,amount,mode) determinism cases", c("A.cases"), a_planned * 6 / 10);
@@ -2394,7 +2652,9 @@ fn main() {
 		 seed (incl. 1-bit neighbour), with root/child view keys. C: random and boundary scalars (1,2,n-1,n-2,2^255,zero): \
 		 split/add/blind_sum/secp.blind_sum vs an own mod-n reference, permutations, add-then-subtract. D: random multisets \
 		 (1-4 inputs incl. coinbase inputs, 0-3 outputs, fee) through build::transaction, reward::output, Block::from_reward. \
-		 E: aggsig sign/verify round trips. A case signature is (phase, path depth, child-number class string, amount class, \
+		 E: aggsig sign/verify round trips. G: the same multisets split over 2-3 parties with a keychain each \
+		 (partial_transaction per party, offset taken from the first party's share, calculate_partial_sig / verify_partial_sig / \
+		 add_signatures over PRNG nonces): kernel.verify, Transaction::validate. A case signature is (phase, path depth, child-number class string, amount class, \
 		 switch, builder, check kind); it is non-trivial when the operation under test actually ran (proof created, tx built, \
 		 sum computed) - cases skipped because creation failed are counted separately and are not evaluations.",
 	);
@@ -2428,9 +2688,13 @@ fn main() {
 		phase_f(&ctx);
 	}
 	let te = t0.elapsed().as_secs_f64();
+	if ctx.wants("multiparty") {
+		phase_g(&ctx);
+	}
+	let tg = t0.elapsed().as_secs_f64();
 	run.extra(
 		"phase_wall_s",
-		json!({"A_determinism": ta, "B_proofs": tb - ta, "C_blinding": tc - tb, "D_builder": td - tc, "E_aggsig": te - td}),
+		json!({"A_determinism": ta, "B_proofs": tb - ta, "C_blinding": tc - tb, "D_builder": td - tc, "E_aggsig": te - td, "G_multiparty": tg - te}),
 	);
 	run.extra("threads", json!(threads));
 	run.extra("sanitizer_workload", json!(san));
